@@ -193,6 +193,57 @@ func (h *harness) genCases() []tcase {
 		b := bmpOf(rd, w, hh, bpp)
 		add(tcase{codec: "bmp", label: fmt.Sprintf("bmp %dx%d bpp=%d", w, hh, bpp), src: b, srcchunk: chunkOf(len(b))})
 	}
+	// hostile DEFLATE streams: valid code-length headers (degenerate / complete / invalid-symbol
+	// distance codes, long literal/length codes), encodable prefix, random data bits
+	for i := 0; i < 30*mult; i++ {
+		src, lb := hostileDeflate(rd, i)
+		codec := "deflate"
+		if i%5 == 4 {
+			// inside a zlib container (the Adler-32 trailer is wrong or missing: also an error path)
+			codec = "zlib"
+			src = append([]byte{0x78, 0x9C}, src...)
+		}
+		add(tcase{codec: codec, label: "hostile-deflate " + lb, src: src, srcchunk: chunkOf(len(src)), dstcap: dstOf(), hostile: true})
+	}
+	for i := 0; i < 8*mult; i++ {
+		ds := 0
+		if i%4 == 3 {
+			ds = rd.Intn(30)
+		}
+		src := targetedDegenerate(rd, ds, []int{0, 16, 3, 40}[i%4])
+		sc := 0
+		if i >= 4 {
+			sc = chunkOf(len(src))
+		}
+		add(tcase{codec: "deflate", label: fmt.Sprintf("hostile-deflate degenerate-dist-unassigned-pattern distsym=%d", ds), src: src, srcchunk: sc, dstcap: dstOf(), hostile: true})
+	}
+	// corrupted variants of the valid files generated above
+	nValid := len(cs)
+	for i := 0; i < nValid; i++ {
+		c := cs[i]
+		if c.kind != "io" && c.kind != "img" {
+			continue
+		}
+		nm := 0
+		switch {
+		case r.Thorough:
+			nm = 2
+		case c.codec == "png":
+			if rd.Intn(3) == 0 {
+				nm = 1
+			}
+		case len(c.src) > 40000:
+			if rd.Intn(3) == 0 {
+				nm = 1
+			}
+		default:
+			nm = 1
+		}
+		for k := 0; k < nm; k++ {
+			m, how := mutate(rd, c.src)
+			add(tcase{codec: c.codec, label: "corrupted(" + how + ") " + c.label, src: m, srcchunk: chunkOf(len(m)), dstcap: c.dstcap, hostile: true, jpegAdv: c.jpegAdv})
+		}
+	}
 	// test data
 	maxSize, per := 70000, 3
 	if r.Thorough {
@@ -204,6 +255,11 @@ func (h *harness) genCases() []tcase {
 			c.dstcap = dstOf()
 		}
 		cs = append(cs, c)
+		if c.kind == "io" || c.kind == "img" {
+			m, how := mutate(rd, c.src)
+			mc := tcase{codec: c.codec, kind: c.kind, label: "corrupted(" + how + ") " + c.label, src: m, srcchunk: chunkOf(len(m)), dstcap: c.dstcap, hostile: true}
+			cs = append(cs, mc)
+		}
 	}
 	// hashes: lengths around SIMD block sizes, misaligned starts, chunked updates
 	for _, codec := range []string{"adler32", "crc32", "crc64", "xxhash32", "xxhash64"} {
@@ -215,6 +271,15 @@ func (h *harness) genCases() []tcase {
 			data := payload(rd, i, n)
 			add(tcase{codec: codec, label: fmt.Sprintf("hash n=%d", n), src: data, srcchunk: chunkOf(n), misalign: rd.Intn(64)})
 		}
+	}
+	// long runs of 0xFF (accumulator extremes of the SIMD hashers) under the whole memory matrix
+	for _, codec := range []string{"adler32", "crc32", "crc64", "xxhash32", "xxhash64"} {
+		n := 600000 + rd.Intn(200000)
+		data := make([]byte, n)
+		for i := range data {
+			data[i] = 0xFF
+		}
+		add(tcase{codec: codec, label: fmt.Sprintf("hash ff-run n=%d", n), src: data, srcchunk: 0, misalign: rd.Intn(64)})
 	}
 	// lzma/xz/lzip need a few hundred bytes of free destination space to make progress, and this
 	// driver's flush-and-restart of a full destination combined with a chunked source makes the
@@ -321,6 +386,13 @@ func (h *harness) runCase(c *tcase, idx int, other []byte) caseResult {
 				} else {
 					st := strings.Fields(ans + " ?")[0]
 					res.counts = append(res.counts, "status:"+c.codec+":"+st)
+				}
+				if c.hostile {
+					if strings.HasPrefix(ans, "st=ok") {
+						res.counts = append(res.counts, "hostile:accepted")
+					} else {
+						res.counts = append(res.counts, "hostile:rejected")
+					}
 				}
 				continue
 			}
